@@ -1171,9 +1171,7 @@ static RETURN_RX: std::sync::OnceLock<Mutex<mpsc::Receiver<mpsc::Sender<(usize, 
 fn spawn_worker() -> mpsc::Sender<(usize, u64, Job)> {
     let (tx, rx) = mpsc::channel::<(usize, u64, Job)>();
     let tx2 = tx.clone();
-    std::thread::Builder::new()
-        .stack_size(1 << 20)
-        .spawn(move || {
+    let body = move || {
             while let Ok((vid, gen, job)) = rx.recv() {
                 let r = rt();
                 // wait for the baton
@@ -1225,9 +1223,27 @@ fn spawn_worker() -> mpsc::Sender<(usize, u64, Job)> {
                 let ret = RETURN.get().unwrap().lock().unwrap().clone();
                 let _ = ret.send(tx2.clone());
             }
-        })
-        .expect("spawn pool thread");
-    tx
+    };
+    // thread creation can fail transiently on an overloaded machine (EAGAIN): retry
+    let mut body = Some(body);
+    for attempt in 0..200 {
+        let b = body.take().unwrap();
+        // `spawn` consumes the closure even on failure, so probe with a cheap thread first
+        match std::thread::Builder::new().stack_size(1 << 16).spawn(|| {}) {
+            Ok(h) => {
+                let _ = h.join();
+                match std::thread::Builder::new().stack_size(1 << 20).spawn(b) {
+                    Ok(_) => return tx,
+                    Err(e) => panic!("spawn pool thread: {}", e),
+                }
+            }
+            Err(_) => {
+                body = Some(b);
+                std::thread::sleep(std::time::Duration::from_millis(50 + attempt));
+            }
+        }
+    }
+    panic!("spawn pool thread: resources exhausted");
 }
 
 /// Run one execution: `bodies[i]` is virtual thread `i`; the last body is the
